@@ -642,11 +642,33 @@ fn check_seq_in(dir: &Path, s: &Seq, obs: &mut Obs) -> CaseResult {
     let iv = interval(s.unit, s.n);
     let mut firings = 0;
     let mut crossed_two = false;
+    // in half of the sequences a second trigger with a schedule of its own (far longer or far shorter) lives in the
+    // process and is consulted right before every arrival: a trigger's schedule is its own
+    let companion = if s.gaps.len() % 2 == 0 {
+        let word = if s.n % 2 == 0 { "1 years" } else { "1 seconds" };
+        let cfg2: TimeTriggerConfig = serde_json::from_value(serde_json::json!({"interval": word})).map_err(|e| Failure { sig: "C16:config".into(), msg: e.to_string() })?;
+        match catch(|| TimeTrigger::new(cfg2)) {
+            Ok(t2) => {
+                let fired2 = Arc::new(Mutex::new(vec![]));
+                let app2 = build_appender(&dir.join("b.log"), true, &None, Box::new(TrigProbe { trigger: Arc::new(t2), fired: fired2 })).map_err(|e| Failure { sig: "C16:build".into(), msg: e.to_string() })?;
+                obs.class(format!("second-live-trigger({})", word));
+                Some(app2)
+            }
+            Err(p) => return fail(panic_sig(Unit::Year, &p), format!("TZ={:?}: TimeTrigger::new at unix {} for {:?} panicked: {}", s.zone, t, word, p)),
+        }
+    } else {
+        None
+    };
     for (i, g) in s.gaps.iter().enumerate() {
         t += *g;
         clock::set_now(Some((t, 0)));
         let now = Local.timestamp_opt(t, 0).unwrap();
         let scheduled = trig.verif_next_roll_time();
+        if let Some(app2) = &companion {
+            if let Err(p) = catch(|| append_msg(app2, "y")) {
+                return fail(panic_sig(Unit::Year, &p), format!("TZ={:?}: append through the second appender at {} panicked: {}", s.zone, now, p));
+            }
+        }
         fired.lock().unwrap().clear();
         let r = catch(|| append_msg(&app, "x"));
         obs.sub_evals += 1;
@@ -1115,7 +1137,7 @@ pub fn replay(part: &str, case: serde_json::Value) -> Option<CaseResult> {
 pub fn meta() -> EvidenceMeta {
     EvidenceMeta {
         level: "exploration",
-        rule: "one worker process per zone (UTC, two fixed offsets, five POSIX-rule DST zones incl. 30-minute and midnight transitions; thorough adds eight named zones). Layer 1 (schedule function via the guarded wrapper): instants constructed around a feature (second/minute/hour/day/ISO-week/month/year boundary, Feb 28/29, Dec 31, ISO week 53, every DST transition of the zone in a generated year 1970-2100, 9% uniform) with offsets of -2..+2 s (sometimes +-1 h) and sub-second parts 0/1/999999999/random, all seven units, n in 1..60 dense and a sparse set up to 10 000, modulate on/off; oracle: no panic, result strictly after now, and wherever chrono reports a constant UTC offset over [start of the current unit, result] (for modulated schedules, which name a wall-clock boundary: over [now, result]) the result in local wall-clock seconds equals the reference computed with the harness's own proleptic-Gregorian arithmetic (days-from-civil, ISO weeks from first principles): start of unit + n units, or with modulation either reading of 'next multiple of n counted from the start of the enclosing period' (wrap at the period end, or run past it). Part extreme: multipliers from 100 000 to i64::MAX (no-panic and future only). Layer 2 (trigger object, clock override): non-decreasing arrival sequences (bursts, gaps of seconds to a year): fires iff now >= scheduled, reschedules strictly into the future inside [next boundary, + max_random_delay), schedule unchanged between firings. Layer 2b (part shared): one trigger shared by 2-8 rolling appenders on as many threads, all appending at the same driven instant at/after the scheduled rotation, 24 rounds: exactly one consultation per round fires. Layer 3: RollingFileAppender + TimeTrigger + fixed window under the driven clock: the first record at/after the boundary is the first record of the new file. Layer 4 (real clock, no override; one child process per case): TZ is a POSIX rule whose daylight-saving time (+7 s ... +1 h) begins two seconds after the case starts; a trigger 'n seconds|minutes + modulate' (n | 60) created after the switch, and one that has been running since before it, must schedule the next multiple of n in local time under the offset now in force; a record arriving 150-350 ms before the scheduled instant must not fire it. non-trivial = within 2 s of a unit boundary, or leap-day/year-end/week-53 feature, or within 1 h of a DST transition (layer 1); >= 2 firings (layer 2); >= 2 rotations (layer 3)".into(),
+        rule: "one worker process per zone (UTC, two fixed offsets, five POSIX-rule DST zones incl. 30-minute and midnight transitions; thorough adds eight named zones). Layer 1 (schedule function via the guarded wrapper): instants constructed around a feature (second/minute/hour/day/ISO-week/month/year boundary, Feb 28/29, Dec 31, ISO week 53, every DST transition of the zone in a generated year 1970-2100, 9% uniform) with offsets of -2..+2 s (sometimes +-1 h) and sub-second parts 0/1/999999999/random, all seven units, n in 1..60 dense and a sparse set up to 10 000, modulate on/off; oracle: no panic, result strictly after now, and wherever chrono reports a constant UTC offset over [start of the current unit, result] (for modulated schedules, which name a wall-clock boundary: over [now, result]) the result in local wall-clock seconds equals the reference computed with the harness's own proleptic-Gregorian arithmetic (days-from-civil, ISO weeks from first principles): start of unit + n units, or with modulation either reading of 'next multiple of n counted from the start of the enclosing period' (wrap at the period end, or run past it). Part extreme: multipliers from 100 000 to i64::MAX (no-panic and future only). Layer 2 (trigger object, clock override): non-decreasing arrival sequences (bursts, gaps of seconds to a year): fires iff now >= scheduled, reschedules strictly into the future inside [next boundary, + max_random_delay), schedule unchanged between firings; in half of the sequences a second live trigger with another schedule (1 year / 1 second) is consulted right before every arrival. Layer 2b (part shared): one trigger shared by 2-8 rolling appenders on as many threads, all appending at the same driven instant at/after the scheduled rotation, 24 rounds: exactly one consultation per round fires. Layer 3: RollingFileAppender + TimeTrigger + fixed window under the driven clock: the first record at/after the boundary is the first record of the new file. Layer 4 (real clock, no override; one child process per case): TZ is a POSIX rule whose daylight-saving time (+7 s ... +1 h) begins two seconds after the case starts; a trigger 'n seconds|minutes + modulate' (n | 60) created after the switch, and one that has been running since before it, must schedule the next multiple of n in local time under the offset now in force; a record arriving 150-350 ms before the scheduled instant must not fire it. non-trivial = within 2 s of a unit boundary, or leap-day/year-end/week-53 feature, or within 1 h of a DST transition (layer 1); >= 2 firings (layer 2); >= 2 rotations (layer 3)".into(),
         assumptions: vec![
             "UTC offsets are taken from chrono (precondition 'offset does not change in between' and construction of instants); the schedule reference itself uses no chrono".into(),
             "modulate: both readings accepted where they differ (the statement's wording admits both)".into(),
